@@ -380,7 +380,7 @@ func genReq(t *rapid.T, lb string) Req {
 		s.NoWrite = true
 		s.Ret = rapid.SampledFrom([]int{400, 403, 404, 500, 502}).Draw(t, lb+"ret")
 		if rapid.Bool().Draw(t, lb+"err") {
-			s.Err = "scripted"
+			s.Err = rapid.SampledFrom([]string{"scripted", "scripted", "context.Canceled", "io.EOF", "os.ErrPermission"}).Draw(t, lb+"errv")
 		}
 	} else {
 		r.Kind = "written"
